@@ -34,7 +34,10 @@ MANIFEST_TEXT = ("Lean 4 theorems, for every lane count S, every scalar type and
                  "the shapes and proved lane-wise for EVERY shape of the grammar (kernels_translated_lanewise); the vector-space operations "
                  "of DenseMatrix (+=, -=, *=, /=, unary -, axpy with per-lane factors) are modelled, run and proved lane-wise "
                  "(matrix_space_ops_lanewise).")
-MANIFEST_NOTE = ("Trusted: Lean kernel (+propext/Classical.choice/Quot.sound), tr_c09.py, fidelity of the hand-written dense-matrix "
+MANIFEST_NOTE = ("Trusted: Lean kernel (+propext/Classical.choice/Quot.sound), tr_c09.py (round 5: including its normalisation pass - inlining of "
+                 "single-assignment const locals with stable pure initialisers, range-for / guard-clause / if-return respellings, alpha-renaming - "
+                 "whose side conditions are syntactic and conservative: a rewrite they cannot justify leaves the text outside the grammar and is "
+                 "reported as a broken tie without failing input), fidelity of the hand-written dense-matrix "
                  "model (differential runs only), Lean's Float/Float32 = IEEE binary64/32 for + - * / < == fabs sqrt and int<->float "
                  "conversions, g++/libm/ASan/UBSan. cmath functions are uninterpreted in the model (their table travels on the op line); "
                  "NaN payload/sign is canonicalised; for solve/invert the property is read as: the SIMD call throws FMatrixError iff the "
@@ -81,7 +84,14 @@ ASSUMPTIONS = [
     "from the source by tools/translators/tr_c09.py; (round 4) so are the control decisions of luDecomposition / ElimDet / ElimPivot / the "
     "LU branches of determinant, solve, invert (Gen.luCtl; the straight-line arithmetic between them is pattern-checked: identifiers, "
     "increment style, braces, `a -= f*b` vs `a = a - f*b`, commuted factors, swap operand order, `!allTrue` vs `anyFalse`, `i != j` with "
-    "exchanged cond operands are free, anything else makes the translator fail) and the loop-nest shapes of the eleven matrix-vector "
+    "exchanged cond operands are free; (round 5) before the grammar is applied the source is normalised by semantics-preserving rewrites "
+    "with explicit side conditions: a `const` local initialised from a side-effect-free expression whose value cannot change in its scope "
+    "(size accessors rows()/cols()/size()/Simd::lanes of an object that is neither assigned as a whole, resized nor passed on; pure reads "
+    "whose operands are not written before the last use) is inlined, with a static_cast kept visible when the declared type is not the "
+    "known type of the initialiser; `for (auto l : range(E))` and a range-for over the entries of a `const LoopSIMD<M,S,A>&` become index "
+    "loops; `if (c) return a; [else] return b;` becomes `return c ? a : b;` for same-typed parameters; `if (c) continue; REST` becomes "
+    "`if (!c) {REST}`; result locals / accumulators are alpha-renamed; `x |= y` = `x = x | y`; `det = cond(..); return det;` = `return cond(..);`; "
+    "two adjacent independent `Simd::cond` assignments under one mask commute; anything else makes the translator fail) and the loop-nest shapes of the eleven matrix-vector "
     "kernels (Gen.kernel_*); hand-written and resting on the differential run: the closed forms n <= 3, left/rightmultiply, the norms, "
     "the vector-space operations (lean/DuneVerif/Model/C09LU.lean, C09X.lean, C09K.lean)",
     "conjugateComplex is the identity on the lanes the harness uses (real scalar types); the kernel theorem holds for every scalar function",
